@@ -100,6 +100,16 @@ pub trait SkipStub: TInputProtocol {
 }
 impl<T: TInputProtocol> SkipStub for T {}
 
+/// Assertion that is active only in the harness instance of the property it belongs to.
+#[macro_export]
+macro_rules! chk {
+    ($active:expr, $cond:expr, $msg:literal) => {
+        if $active {
+            kani::assert($cond, $msg);
+        }
+    };
+}
+
 /// Wraps a harness with the standard cuts S1-S5.
 #[macro_export]
 macro_rules! proof {
